@@ -49,6 +49,12 @@ func runC03(c *Ctx) {
 	c.Floors["O"] = 6
 	// a previous-block commit verifies against the previous validator set: the sets keep their roles
 	validatorSetRoles(c)
+	// +2/3 means more than two thirds, counted once per validator; a previous-block commit is verified slot by slot
+	tallyRules(c)
+	verifyCommitRules(c)
+	// a restarted validator finds its own votes of the height again (WAL search and replay), or it signs a second time
+	searchRules(c)
+	replayRules(c)
 
 	P := c.P
 	stPropose := P.Const("consensus/types", "RoundStepPropose")
